@@ -9,6 +9,7 @@ mod areas;
 mod geom;
 mod hist;
 mod ljcheck;
+mod ljscore;
 mod obs;
 mod oracle;
 mod optrace;
@@ -114,6 +115,12 @@ fn main() {
         "parser" => geom::parser(m.get("in").expect("--in"), m.get("out").expect("--out")),
         "lattice" => geom::lattice(m.get("in").expect("--in"), m.get("out").expect("--out")),
         "lj" => ljcheck::lj(m.get("in").expect("--in"), m.get("out").expect("--out")),
+        "probe" => ljscore::probe_replay(m.get("in").expect("--in"), m.get("out").expect("--out")),
+        "ljsum" => ljscore::ljsum(
+            m.get("out").expect("--out"),
+            m.get("tier").map(|t| t == "thorough").unwrap_or(false),
+            m.get("seed").and_then(|s| s.parse().ok()).unwrap_or(1),
+        ),
         "tables" => geom::tables(m.get("out").expect("--out")),
         "crystal" => geom::crystal(m.get("in").expect("--in"), m.get("out").expect("--out")),
         _ => {
